@@ -1,6 +1,7 @@
 (* C09 - Perpetual pool aggregates equal the sum of positions; custody is always backed. Statements only. *)
 From Coq Require Import ZArith List Bool Arith.
 From Elys Require Import Base.Res Base.Fn Models.SumLedger Models.PerpLedger Proofs.PerpLedgerProofs Models.PerpBacking Proofs.PerpBackingProofs.
+From Elys Require Import Models.PerpBackingMulti Proofs.PerpBackingMultiProofs.
 Import ListNotations.
 Open Scope Z_scope.
 
@@ -49,6 +50,28 @@ Theorem C09_custody_backed_from_genesis : forall assets h1 h2,
   Inv assets (brun item_atomic assets b_empty h1) /\ Inv assets (brun item_atomic assets b_empty (h1 ++ h2)).
 Proof. intros assets h1 h2. apply brun_atomic_prefix. apply b_empty_inv. Qed.
 Print Assumptions C09_custody_backed_from_genesis.
+
+(* SEVERAL perpetual pools (Models/PerpBackingMulti.v): every pool has its own books and asset list, a transaction may touch
+   any of them (routes crossing pools, an open on one pool after a swap on another) and is written for all pools or for none, a
+   MsgClosePositions may list positions of several pools (each item all-or-nothing on its own pool).  Over EVERY such history
+   every pool stays backed in every asset. *)
+Theorem C09_custody_backed_all_pools : forall assets h f,
+  (forall p, Inv (assets p) (f p)) -> forall p, Inv (assets p) (mbrun assets f h p).
+Proof. intros assets h f HI. exact (mbrun_inv assets h f HI). Qed.
+Print Assumptions C09_custody_backed_all_pools.
+
+(* ... and the family projects onto the one-pool machine the harness replays per pool: an accepted cross-pool transaction is,
+   seen from pool p, the accepted one-pool transaction of its operations on p; a mixed MsgClosePositions is, seen from pool p,
+   the message of its items on p *)
+Theorem C09_cross_pool_tx_projects : forall assets p l f f',
+  mhrun assets f l = Ok f' -> hrun (assets p) (f p) (hops_of p l) = Ok (f' p).
+Proof. intros assets p l. exact (mhrun_proj assets p l). Qed.
+Print Assumptions C09_cross_pool_tx_projects.
+
+Theorem C09_mixed_close_positions_projects : forall assets p l f,
+  fold_left (mitem assets) l f p = fold_left (item_atomic (assets p)) (items_of p l) (f p).
+Proof. intros assets p l. exact (mitems_proj assets p l). Qed.
+Print Assumptions C09_mixed_close_positions_projects.
 
 (* the code before fix: 85af696 (items not atomic): true for every history in which no item leaves a transfer behind *)
 Theorem C09_custody_backed_asis : forall assets h s,
